@@ -486,7 +486,8 @@ def mon_fb(t, out, st):
         return f'forward returned {V!r}'
     if abs(Fr(V) - Vd.v) > tolV:
         return (f'forward = {V!r} but Σ stage costs + terminal cost + ½ Σ μ-weighted squared box distance '
-                f'along the exactly simulated trajectory = {float(Vd.v)!r} (exact {Vd.v}); regime {tag}')
+                f'along the exactly simulated trajectory = {float(Vd.v)!r}' +
+                (f' (exact {Vd.v})' if exact else '') + f'; regime {tag}')
     # the trajectory, outputs and constraint values stored by forward
     stride = nx + nu + nh + nc
     if len(sto) != N * stride + nx + nhN + ncN:
@@ -508,7 +509,8 @@ def mon_fb(t, out, st):
     for i in range(N * nu):
         if not math.isfinite(grad[i]) or abs(Fr(grad[i]) - Vd.g[i]) > tolg[i]:
             return (f'backward: ∂V/∂u[{i // nu}][{i % nu}] = {grad[i]!r}, exact derivative of the cost '
-                    f'polynomial = {float(Vd.g[i])!r} (exact {Vd.g[i]}); regime {tag}')
+                    f'polynomial = {float(Vd.g[i])!r}' + (f' (exact {Vd.g[i]})' if exact else '') +
+                    f'; regime {tag}')
     return None
 
 
@@ -766,7 +768,7 @@ def riccati_stage(rep, broken, exe, tier):
                 break
             mdu, mdx, _ = parse_ric_out(d)
             merr = max([abs(a - b) for a, b in zip(du, mdu)] + [abs(a - b) for a, b in zip(dxN, mdx)] + [0.0])
-            if len(mdu) != len(du) or not merr <= tol:
+            if (len(mdu) != len(du) or not merr <= tol) and nbad == 0:
                 broken.append(f'correspondence (riccati): model and implementation differ on {op[:160]} '
                               f'impl={du} model={mdu}')
                 rep.cov['first_disagreement'] = {'op': op, 'impl': h, 'model': d}
@@ -782,10 +784,148 @@ def riccati_stage(rep, broken, exe, tier):
              f'model vs real on {model_checked}')
 
 
+# ------------------------------------------------------------------------------ Gauss-Newton step (extra stage)
+
+def gn_reference(p, mu, y, xinit, u, qfix, masks):
+    """The Gauss-Newton QP of panoc-ocp at (x, u), built exactly from the problem data, and its
+    minimiser by the dense KKT solve."""
+    N, nx, nu, nh, nhN, nc, ncN = p.N, p.nx, p.nu, p.nh, p.nhN, p.nc, p.ncN
+    F = lambda name: [Fr(a) for a in getattr(p, name)]
+    A, B, Cb, Hm, HN = F('A'), F('B'), F('Cb'), F('Hm'), F('HN')
+    w, g, d, wN, gN = F('w'), F('g'), F('d'), F('wN'), F('gN')
+    Cc, cq, CcN, cqN = F('Cc'), F('cq'), F('CcN'), F('cqN')
+    U = [[Fr(u[t * nu + k]) for k in range(nu)] for t in range(N)]
+    V, xs, hs, cs = p.cost(xinit, U, mu, y)
+    mu = [Fr(m) for m in mu]
+    yv = [Fr(a) for a in y]
+    nxu = nx + nu
+
+    def pen_terms(c, lb, ub, muk, yk):
+        act, grad = [], []
+        for i in range(len(c)):
+            z = c[i] + yk[i] / muk[i]
+            lo = math.isfinite(lb[i]) and z < Fr(lb[i])
+            hi = math.isfinite(ub[i]) and z > Fr(ub[i])
+            act.append(muk[i] if (lo or hi) else Fr(0))
+            grad.append(muk[i] * ((z - Fr(lb[i])) if lo else (z - Fr(ub[i])) if hi else Fr(0)))
+        return act, grad
+    stages = []
+    for t in range(N):
+        x, ut = xs[t], U[t]
+        xu = list(x) + list(ut)
+        At = [[A[i * nx + j] + sum(Cb[(i * nx + j) * nu + k] * ut[k] for k in range(nu)) for j in range(nx)]
+              for i in range(nx)]
+        Bt = [[B[i * nu + k] + sum(Cb[(i * nx + j) * nu + k] * x[j] for j in range(nx)) for k in range(nu)]
+              for i in range(nx)]
+        if nh > 0:
+            Jh = [[Hm[i * nxu + j] for j in range(nxu)] for i in range(nh)]
+            h = hs[t]
+        else:
+            Jh = [[Fr(int(i == j)) for j in range(nxu)] for i in range(nxu)]
+            h = xu
+        nl = len(h)
+        gl = [w[i] * h[i] + g[i] + t * d[i] for i in range(nl)]
+        H2 = [[sum(Jh[i][a] * w[i] * Jh[i][b] for i in range(nl)) for b in range(nxu)] for a in range(nxu)]
+        qr = [sum(Jh[i][a] * gl[i] for i in range(nl)) for a in range(nxu)]
+        Q = [[H2[a][b] for b in range(nx)] for a in range(nx)]
+        if nc > 0:
+            Jc = [[Cc[i * nx + j] + (2 * cq[i] * x[j] if j == i % nx else 0) for j in range(nx)] for i in range(nc)]
+            act, pg = pen_terms(cs[t], p.Dlb, p.Dub, mu[t * nc:(t + 1) * nc], yv[t * nc:(t + 1) * nc])
+            for a in range(nx):
+                qr[a] += sum(Jc[i][a] * pg[i] for i in range(nc))
+                for b in range(nx):
+                    Q[a][b] += sum(Jc[i][a] * act[i] * Jc[i][b] for i in range(nc))
+        stages.append(dict(A=At, B=Bt, Q=Q, R=[[H2[nx + a][nx + b] for b in range(nu)] for a in range(nu)],
+                           S=[[H2[nx + a][b] for b in range(nx)] for a in range(nu)], q=qr[:nx], r=qr[nx:],
+                           u=[Fr(qfix[t * nu + k]) for k in range(nu)], mask=masks[t]))
+    x = xs[N]
+    if nhN > 0:
+        JhN = [[HN[i * nx + j] for j in range(nx)] for i in range(nhN)]
+        h = hs[N]
+    else:
+        JhN = [[Fr(int(i == j)) for j in range(nx)] for i in range(nx)]
+        h = x
+    nl = len(h)
+    glN = [wN[i] * h[i] + gN[i] for i in range(nl)]
+    QN = [[sum(JhN[i][a] * wN[i] * JhN[i][b] for i in range(nl)) for b in range(nx)] for a in range(nx)]
+    qN = [sum(JhN[i][a] * glN[i] for i in range(nl)) for a in range(nx)]
+    if ncN > 0:
+        JcN = [[CcN[i * nx + j] + (2 * cqN[i] * x[j] if j == i % nx else 0) for j in range(nx)] for i in range(ncN)]
+        act, pg = pen_terms(cs[N], p.DNlb, p.DNub, mu[N * nc:N * nc + ncN], yv[N * nc:N * nc + ncN])
+        for a in range(nx):
+            qN[a] += sum(JcN[i][a] * pg[i] for i in range(ncN))
+            for b in range(nx):
+                QN[a][b] += sum(JcN[i][a] * act[i] * JcN[i][b] for i in range(ncN))
+    return kkt_step(N, nx, nu, stages, QN, qN), V
+
+
+def gn_stage(rep, broken, exe, tier):
+    rng = random.Random(C.seed() * 52361 + (3 if tier == 'thorough' else 0))
+    n = 120 if tier == 'quick' else 1200
+    ops, meta = [], []
+    while len(ops) < n:
+        exact = rng.random() < 0.6
+        N = rng.choice([1, 2, 3]); nx = rng.choice([1, 2, 3]); nu = rng.choice([1, 2, 3])
+        nh = rng.choice([0, 0, nx + nu]); nhN = rng.choice([0, nx])
+        nc = rng.choice([0, 1, 2]); ncN = rng.choice([0, 1, 2])
+        pline, (mu, y, xinit, u), _ = gen_problem(rng, exact, (N, nx, nu, nh, nhN, nc, ncN))
+        p = Prob(T(pline))
+        # positive weights on the inputs make the reduced input Hessians positive definite
+        nl = nh if nh > 0 else nx + nu
+        p.w = [float(rng.choice([1, 2, 4])) / 2 for _ in range(nl)]
+        if nh > 0:   # outputs = (x; u) mixed by a unit lower-triangular matrix: full column rank
+            p.Hm = [1.0 if i == j else (small(rng, 0.5) if j < i else 0.0) for i in range(nh) for j in range(nx + nu)]
+        toks = pline.split()
+        vs = [p.A, p.B, p.Cb, p.e, p.Hm, p.HN, p.w, p.g, p.d, p.wN, p.gN, p.Cc, p.cq, p.ce, p.CcN, p.cqN,
+              p.Dlb, p.Dub, p.DNlb, p.DNub]
+        pline = ' '.join(toks[:7]) + ' ' + ' '.join(vec2p(v) for v in vs)
+        masks = [rng.choice([0, 2 ** nu - 1, rng.getrandbits(nu), rng.getrandbits(nu)]) for _ in range(N)]
+        qfix = [small(rng, 0.2) for _ in range(N * nu)]
+        chol = rng.randint(0, 1)
+        ops.append(f'gn {chol} {pline} {vec2p(mu)} {vec2p(y)} {vec2p(xinit)} {vec2p(u)} {vec2p(qfix)} '
+                   + ' '.join(map(str, masks)))
+        meta.append((mu, y, xinit, u, qfix, masks))
+    hout, rc, err = C.run_lines(exe, ops)
+    if rc != 0 or len(hout) != len(ops):
+        rep.violation(f'real code crashed on gn op #{len(hout)} (rc={rc}): {err[-300:]}',
+                      {'op': ops[len(hout)] if len(hout) < len(ops) else None}, True)
+        return
+    rep.cov['evaluations'] += len(hout)
+    checked, worst, nbad = 0, 0.0, 0
+    for op, h, (mu, y, xinit, u, qfix, masks) in zip(ops, hout, meta):
+        if h.startswith('exception'):
+            rep.violation(f'gauss-newton step: real code threw: {h}', {'op': op}, True)
+            continue
+        o = T(h)
+        V = o.flt(); o.expect('du'); du = o.vec(); o.expect('g'); o.vec(); o.expect('rcond'); rcond = o.flt()
+        t = T(op); t.tok(); t.tok()
+        p = Prob(t)
+        ref, Vex = gn_reference(p, mu, y, xinit, u, qfix, masks)
+        if ref is None or not rcond > 1e-6:
+            continue
+        rdu, _ = ref
+        scale = max([1.0] + [abs(float(a)) for a in rdu])
+        tol = 2.0 ** -30 / rcond * scale * (p.N + 1)
+        e = max([abs(a - float(b)) for a, b in zip(du, rdu)] + [0.0])
+        worst = max(worst, e * rcond / scale)
+        checked += 1
+        if not e <= tol:
+            nbad += 1
+            rep.violation(f'gauss-newton step assembled from OCPEvaluator (Q/R/S/R_prod/S_prod, qr, AB, IndexSet) '
+                          f'= {du}, exact minimiser of the masked Gauss-Newton QP = {[float(a) for a in rdu]} '
+                          f'(deviation {e:.3g}, tolerance {tol:.3g}, masks {masks})',
+                          {'op': op, 'impl_out': h}, True)
+            if nbad >= 3:
+                break
+    rep.cov['gauss_newton'] = {'cases': len(ops), 'checked': checked, 'worst_error_times_rcond_over_scale': worst}
+    rep.note(f'gauss-newton pipeline: {checked}/{len(ops)} steps vs exact KKT of the GN QP, worst = {worst:.3g}')
+
+
 def extra_stage(rep, broken, exe, tier):
     if not exe:
         return
     riccati_stage(rep, broken, exe, tier)
+    gn_stage(rep, broken, exe, tier)
     # side observation (outside the property; never fails the check)
     obs = ['xstride 2 2 1 0 0 0 0', 'xstride 3 2 1 1 0 0 0', 'xstride 2 2 1 0 2 0 1', 'xstride 2 2 2 3 1 1 1']
     out, rc, _ = C.run_lines(exe, obs)
@@ -799,7 +939,9 @@ if __name__ == '__main__':
         'C12', sys.argv,
         gen_scripts=['gen_c12.py'], modules=['Alpaqa.Props.C12'], driver='drv_c12',
         extra_sources=['Alpaqa/Gen/C12.lean', 'Alpaqa/Model/C12.lean', 'Alpaqa/Proofs/Basic.lean',
-                       'Driver/C12.lean'],
+                       'Driver/C12.lean'] + ['Alpaqa/Proofs/C12%s.lean' % n for n in (
+                           'Layout', 'Seg', 'Compl', 'Vec', 'Forward', 'Penalty', 'Adjoint', 'Lin',
+                           'RicM', 'Riccati')],
         harness_name='c12',
         harness_sources=[os.path.join(C.VERIF, 'harness', 'c12.cpp')] + C.repo_lib_sources(
             ['problem/ocproblem.cpp']),
